@@ -139,3 +139,21 @@ fn c04_client_a() {
         }
     }
 }
+
+/// C01: fixed-width little-endian zero padding of every big-integer result: for every 32-byte value the
+/// wrapper conversions give back exactly those bytes on all three paths (server S, client S, public keys).
+#[kani::proof]
+#[kani::unwind(66)]
+fn c01_pad_roundtrip() {
+    let b: [u8; 32] = kani::any();
+    let i = crate::bigint::Integer::from_bytes_le(&b);
+    assert!(bytes_eq32(&i.to_padded_32_byte_array_le(), &b), "C01: to_padded_32_byte_array_le is not zero padding on the high side");
+    let s = SKey::from(crate::bigint::Integer::from_bytes_le(&b));
+    assert!(bytes_eq32(s.as_le_bytes(), &b), "C01: SKey::from(Integer) is not zero padding on the high side");
+    let v = Verifier::from_le_bytes(b);
+    let back = v.as_bigint().to_padded_32_byte_array_le();
+    assert!(bytes_eq32(&back, &b), "C01: as_bigint / padded round trip changes the value");
+    kani::cover!(b[31] == 0 && b[30] == 0 && b[29] != 0, "two high zero bytes");
+    kani::cover!(b[0] == 0 && b[1] == 0 && b[31] != 0, "two low zero bytes");
+    kani::cover!(is_zero(&b), "zero");
+}
